@@ -9,6 +9,7 @@ cases against the extracted model.
 import itertools
 import json
 import os
+import re
 import shutil
 
 import vlib
@@ -248,6 +249,98 @@ def run(ctx):
         ctx.traces += 1
     ctx.sample({"case": inb[len(inb) // 2][0][0], "expected": inb[len(inb) // 2][1]})
     ctx.sample({"case": inb[-1][0][0], "expected": inb[-1][1]})
+    copy_string_block(ctx)
+
+
+CS_HARNESS = r'''
+%(includes)s
+#include <stdio.h>
+#include <stdlib.h>
+#include <string.h>
+%(helpers)s
+static int released = 0;
+void %(dtor)s(%(capsule)s *cap) { (void) cap; released++; }
+%(copy)s
+int main(void) {
+    int ns, nd, mask;
+    while (scanf("%%d %%d %%d", &ns, &nd, &mask) == 3) {
+        /* source of exactly ns bytes (no terminator), destination of exactly nd bytes: the sanitizer sees any access outside */
+        char *src = (char *) malloc(ns ? ns : 1); char *dst = (char *) malloc(nd ? nd : 1);
+        for (int i = 0; i < ns; i++) src[i] = (mask >> i) & 1 ? ' ' : (char) ('a' + i);
+        memset(dst, '#', nd);
+        %(array)s data; memset(&data, 0, sizeof data);
+        data.addr.ccharp = src; data.elem_len = ns; data.size = 1;
+        released = 0;
+        %(fn)s(&data, dst, nd);
+        printf("%%d:", released);
+        for (int i = 0; i < nd; i++) printf("%%02x", (unsigned char) dst[i]);
+        printf("\n");
+        free(src); free(dst);
+    }
+    return 0;
+}
+'''
+
+
+def copy_string_block(ctx):
+    """copy_string (ShroudCopyStringAndFree): the Fortran wrapper of an allocatable character result calls it with the length of
+    its freshly allocated variable.  For all source and destination lengths 0..N it copies min(source, destination) characters,
+    writes nothing else, reads nothing past the source, puts no NUL into the variable and releases the C++ result once."""
+    import subprocess
+    vlib.import_shroud()
+    from shroud import whelpers, ast as sast
+    N = 6 if ctx.tier == "quick" else 9
+    for lang in ("c", "c++"):
+        lib = sast.create_library_from_dictionary({"library": "x", "language": lang, "declarations": []})
+        whelpers.set_library(lib)
+        whelpers.add_all_helpers()
+        fmt = lib.fmtdict
+        key = "c" if lang == "c" else "cxx"
+        incs, srcs = [], []
+
+        def add(n):
+            h = whelpers.CHelpers[n]
+            for d in h.get("dependent_helpers", []) or []:
+                add(d)
+            for i in h.get(key + "_include", h.get("include", [])) or []:
+                if i not in incs:
+                    incs.append(i)
+            src = h.get(key + "_source", h.get("source"))
+            if src:
+                # indentation marks of the line writer: a trailing + and a leading - (also the ^ and 0 column marks)
+                src = "\n".join(re.sub(r"^[-0^]+(?=[}\w#])", "", ln[:-1] if ln.endswith("+") else ln) for ln in src.split("\n"))
+            if src and src not in srcs:
+                srcs.append(src)
+        add("copy_string")
+        copy = srcs.pop()
+        code = CS_HARNESS % {"includes": "\n".join("#include " + i for i in incs), "helpers": "\n".join(srcs), "copy": copy,
+                             "dtor": fmt.C_memory_dtor_function, "capsule": fmt.C_capsule_data_type, "array": fmt.C_array_type,
+                             "fn": fmt.C_prefix + "ShroudCopyStringAndFree"}
+        src = os.path.join(ctx.bdir, "cs_" + key + (".c" if lang == "c" else ".cpp"))
+        open(src, "w").write(code)
+        exe = src + ".exe"
+        cc = ["gcc"] if lang == "c" else ["g++"]
+        rc, out = vlib.sh(cc + ["-g", "-O1", "-fsanitize=address,undefined", "-fno-sanitize-recover=all", "-w", src, "-o", exe], timeout=300)
+        if rc != 0:
+            ctx.broken.append(("correspondence", "copy-string-helper-compiles-" + lang, out[-2000:]))
+            continue
+        cases = [(ns, nd, mask) for ns in range(N + 1) for nd in range(N + 1) for mask in sorted({0, (1 << ns) - 1, 1, (1 << ns) >> 1, 0b10101 & ((1 << ns) - 1)})]
+        for (ns, nd, mask) in cases:
+            p = subprocess.run([exe], input="%d %d %d\n" % (ns, nd, mask), capture_output=True, text=True,
+                               env=dict(os.environ, ASAN_OPTIONS="detect_leaks=1:abort_on_error=0"))
+            ctx.count(1, (lang, "copy_string", ns, nd, mask))
+            ctx.hist("copy_string:" + ("fits" if ns <= nd else "longer-source"))
+            srcb = [32 if (mask >> i) & 1 else 97 + i for i in range(ns)]
+            n = min(ns, nd)
+            exp = "1:" + "".join("%02x" % b for b in srcb[:n]) + "23" * (nd - n)
+            got = p.stdout.strip()
+            if p.returncode != 0 or got != exp:
+                what = ("sanitizer report: the helper reads or writes outside the lengths it is given" if p.returncode != 0 else
+                        "the Fortran variable does not hold min(source, variable) characters of the result and nothing else")
+                ctx.violation("failing-input", {"what": "copy_string (ShroudCopyStringAndFree): " + what, "language": lang,
+                                                "input": {"source_length": ns, "variable_length": nd, "blank_mask": mask},
+                                                "expected": exp, "observed": got, "stderr": p.stderr[-1200:]})
+                break
 
 
 def find_bad_calls(gdir):
